@@ -127,7 +127,7 @@ var (
 		"ibc/", "ibc/zz", "ibc/27394FB092D2ECCD56123C74F36E4C1F926001CEADA9CA97EA622B25F41E5EB2", "transfer/channel-0/", "transfer/channel-0/x/channel-1", "{", "{}", `{"a":{"b":`, "null", strings.Repeat("[", 3000),
 		"cosmos1", "cosmos1qqqqqqqqqqqqqqqqqqqqqqqqqqqqqqqqnrql8a", strings.Repeat("9", 400), "+1", "1e9", "0x10", "NaN", "*", "%s%n", "connection-0,connection-1", strings.Repeat("a/", 2000),
 	}
-	hostileU64 = []uint64{math.MaxUint64, math.MaxUint64 - 1, 1 << 63, 1<<63 - 1, 1<<63 + 1, 1 << 32, 1<<32 - 1, 1 << 53, 1 << 31, 1<<31 - 1, 1_000_000_000, 18446744074}
+	hostileU64   = []uint64{math.MaxUint64, math.MaxUint64 - 1, 1 << 63, 1<<63 - 1, 1<<63 + 1, 1 << 32, 1<<32 - 1, 1 << 53, 1 << 31, 1<<31 - 1, 1_000_000_000, 18446744074}
 	hostileBytes = [][]byte{nil, {}, {0}, {0xff}, make([]byte, 32), make([]byte, 33), make([]byte, 4096), []byte("{}"), []byte("null"), {0x0a, 0xff, 0xff, 0xff, 0xff, 0x0f}, []byte(`{"result":"AQ=="}`), []byte(`{"error":" "}`)}
 )
 
